@@ -34,6 +34,7 @@ type Obligation struct {
 	Seconds float64
 	Model   string
 	Query   string
+	Relaxed string
 	Output  string
 }
 
@@ -76,6 +77,7 @@ type Frame struct {
 	oblSeen  map[string]int
 	countDefs map[string]bool
 	nilMapDone map[int]bool
+	sitePC    map[ssa.Instruction]*Term
 }
 
 type outEdge struct {
